@@ -159,7 +159,9 @@ FieldEdits(t) ==
     LET f == Split(ls[i], TAB)
         Put(g) == Flatten([k \in 1..Len(ls) |-> (IF k = i THEN JoinWith(g, <<TAB>>) ELSE ls[k]) \o <<LF>>])
     IN UNION {
-         {Put([f EXCEPT ![c] = tok]) : tok \in {<<>>, <<48>>, <<120>>, <<45, 49>>, <<43>>, <<49, 44, 50>>, <<44>>}}
+         {Put([f EXCEPT ![c] = tok]) : tok \in {<<>>, <<48>>, <<120>>, <<45, 49>>, <<43>>, <<49, 44, 50>>, <<44>>,
+                                                \* a word followed by a byte that is a blank as a Latin-1 rune only
+                                                <<120, 160>>, <<133>>}}
          \cup {Put(SubSeq(f, 1, c - 1) \o SubSeq(f, c + 1, Len(f)))}
          \cup {Put(SubSeq(f, 1, c) \o SubSeq(f, c, Len(f)))}
        : c \in 1..Len(f)}
